@@ -65,10 +65,20 @@ func recsEqual(a, b [][]string) (bool, string) {
 	return true, ""
 }
 
-func c05Check(c *Ctx, spec *gen.TableSpec, sample bool) {
+func c05Check(c *Ctx, spec *gen.TableSpec, st *stage, sample bool) {
 	c.Case = spec
-	b := spec.Build(tabular.New())
-	out, err := csv.Wrap(b.T).Render()
+	t := tabular.New()
+	w := csv.Wrap(t)
+	if st != nil {
+		c.Case = map[string]interface{}{"table": spec, "mode": st.Note}
+		b := spec.BuildStaged(t, st.At, func() { w.Render() })
+		w.Render()
+		b.Finalize()
+		c.Rec.Count("staged_cases(render, change, render again through the same wrapper)", 1)
+	} else {
+		spec.Build(t)
+	}
+	out, err := w.Render()
 	n := spec.NCols()
 	nontrivial := n > 0 && spec.NBody() > 0
 	c.Rec.Eval(gen.Hash64(spec.Shape(), fmt.Sprint(spec.HeaderTexts()), fmt.Sprint(textsOf(spec))), nontrivial)
@@ -144,7 +154,11 @@ func c05Positions(c *Ctx, i int, r *gen.R) {
 		spec.Rows = []gen.RowSpec{{Sep: true}, {Items: []gen.ItemSpec{gen.StrItem(c3)}}, {Sep: true}}
 		spec.HeaderAt = 1
 	}
-	c05Check(c, &spec, i%500 == 1)
+	var st *stage
+	if i%2 == 1 {
+		st = &stage{At: i % 3, Note: "staged: wrapper reused"}
+	}
+	c05Check(c, &spec, st, i%500 == 1)
 }
 
 func init() {
@@ -163,7 +177,7 @@ func init() {
 			{Name: "hostile atoms in every field position", Exhaustive: true, N: Fixed(n*n*n*3, n*n*n*3), Run: c05Positions},
 			{Name: "random tables", N: Fixed(5000, 3000000), Run: func(c *Ctx, i int, r *gen.R) {
 				spec := c05Table(r)
-				c05Check(c, &spec, true)
+				c05Check(c, &spec, drawStage(r, len(spec.Rows), spec.NCols()), true)
 			}},
 		},
 	})
